@@ -58,7 +58,7 @@ def valid(hist, init_true):
 
 def histories(tier):
     acts_full = [(k, g) for k in KINDS for g in GAPS]
-    acts_red = [(k, g) for k in KINDS for g in (2, 11)]
+    acts_red = [(k, 7) for k in KINDS]
     out = [()]
     out += [(a,) for a in acts_full]
     out += [(a, b) for a in acts_full for b in acts_full]
@@ -194,7 +194,7 @@ def classify(cfg, legacy, hist, exp, got):
 
 
 def bounds(tier):
-    return {"configurations": len(CONFIGS) * 2, "history_length": 3 if tier == "thorough" else "<=2 (+ length 3 with A/U at gaps 2,11)",
+    return {"configurations": len(CONFIGS) * 2, "history_length": 3 if tier == "thorough" else "<=2 (+ length 3 containing A or U at gap 7)",
             "gaps": GAPS, "hold": S, "hold_false": H, "horizon_s": HORIZON}
 
 
